@@ -331,6 +331,7 @@ impl<'a> Walk<'a> {
         match strip_paren(e) {
             Expr::Ident(n) => self.decl_type(self.lookup(n)),
             Expr::Timing(..) => Some(Type::Duration(IsConst::True)),
+            Expr::Un(UnOp::Neg, x) if matches!(**x, Expr::Timing(..)) => Some(Type::Duration(IsConst::True)),
             Expr::Int(_) => Some(Type::Int(Some(128), IsConst::True)),
             Expr::Float(_) => Some(Type::Float(Some(64), IsConst::True)),
             Expr::Bool(_) => Some(Type::Bool(IsConst::True)),
@@ -394,13 +395,29 @@ impl<'a> Walk<'a> {
                     self.fail("C06:literal-value:bool".into(), format!("{b}"), format!("{l:?}"));
                 }
             }
+            (Expr::Imag(..), asg::Expr::Literal(asg::Literal::ImaginaryInt(l))) => {
+                if *l.sign() == neg {
+                    self.fail("C06:literal-value:imag-sign".into(), format!("negated={neg}"), format!("{l:?}"));
+                }
+            }
+            (Expr::Imag(..), asg::Expr::Literal(asg::Literal::ImaginaryFloat(l))) => {
+                if l.value().starts_with('-') != neg {
+                    self.fail("C06:literal-value:imag-sign".into(), format!("negated={neg}"), format!("{l:?}"));
+                }
+            }
             (Expr::Timing(_, _, unit, _), asg::Expr::Literal(asg::Literal::TimingIntLiteral(l))) => {
+                if *l.sign() == neg {
+                    self.fail("C06:literal-value:timing-sign".into(), format!("negated={neg}"), format!("{l:?}"));
+                }
                 let u = format!("{:?}", l.time_unit());
                 if !unit_matches(unit, &u) {
                     self.fail("C06:literal-value:time-unit".into(), unit.clone(), u);
                 }
             }
             (Expr::Timing(_, _, unit, _), asg::Expr::Literal(asg::Literal::TimingFloatLiteral(l))) => {
+                if *l.sign() == neg {
+                    self.fail("C06:literal-value:timing-sign".into(), format!("negated={neg}"), format!("{l:?}"));
+                }
                 let u = format!("{:?}", l.time_unit());
                 if !unit_matches(unit, &u) {
                     self.fail("C06:literal-value:time-unit".into(), unit.clone(), u);
@@ -563,6 +580,7 @@ impl<'a> Walk<'a> {
                     Expr::Int(_) if !matches!(**x, Expr::Paren(_)) => self.expect_literal("int", got, x, true),
                     Expr::Float(_) if !matches!(**x, Expr::Paren(_)) => self.expect_literal("float", got, x, false),
                     Expr::Imag(_, f, _) if !matches!(**x, Expr::Paren(_)) => self.expect_literal(if *f { "imag-float" } else { "imag-int" }, got, x, true),
+                    Expr::Timing(_, f, _, _) if !matches!(**x, Expr::Paren(_)) => self.expect_literal(if *f { "timing-float" } else { "timing-int" }, got, x, true),
                     _ => {
                         let inner = match ge {
                             Some(asg::Expr::UnaryExpr(u)) => {
@@ -1243,9 +1261,19 @@ impl<'a> Walk<'a> {
                         };
                         let d = self.use_name(n, sym, "lvalue", "UndefVarError");
                         if let Some(d) = d {
-                            if let Some(t) = &self.decls[d].ty {
+                            if let Some(t) = &self.decls[d].ty.clone() {
                                 if t.is_const() {
                                     self.expect_diag("MutateConstError");
+                                }
+                                // a float literal never goes into an int/uint/bool/duration
+                                // target, a boolean literal never into a float target
+                                let never = match (t, strip_paren(value)) {
+                                    (Type::Int(..) | Type::UInt(..) | Type::Bool(_) | Type::Duration(_), Expr::Float(_)) => true,
+                                    (Type::Float(..), Expr::Bool(_)) => true,
+                                    _ => false,
+                                };
+                                if never {
+                                    self.expect_diag("IncompatibleTypesError");
                                 }
                             }
                         }
